@@ -82,6 +82,17 @@ def check(run: Run) -> None:
     for c in gens.indent(run):
         if c["outcome"] != "ok":
             add(c["src"], "indent.tla:" + c["outcome"])
+    CH = 100000
+    for lo in range(0, len(cases), CH):
+        _judge(run, cases[lo:lo + CH])
+    run.extra["rejected_snippets"] = len(rejected)
+    run.rule = ("rejected snippets (harvested invalid test inputs + seeds) x 14 layouts (ErrLayout.tla) + single-character edit neighbourhood "
+                "of seed programs, both entry points; evaluated = raised SyntaxError/IndentationError records; distinct = (text, entry)")
+    run.assumptions += ["line length = characters without the line terminator; offset may point one past it"]
+
+
+def _judge(run: Run, cases: list[dict]) -> None:
+    """one chunk of texts: error records of both entry points, judged by ErrShape.tla"""
     res = run_ops("c11", [{"src": c["src"], "py_version": (3, 8) if c["origin"].startswith("gated:") else None} for c in cases], limit=20.0, batch=100)
     traces, meta = [], []
     for c, r in zip(cases, res):
@@ -101,10 +112,6 @@ def check(run: Run) -> None:
             c, t = meta[i], traces[i]
             run.violation({"src": c["src"], "origin": c["origin"], "entry": t["entry"]}, clause,
                           {k: t[k] for k in ("cls", "msg", "fname", "ln", "off", "eln", "eoff", "text", "line", "nargs")})
-    run.extra["rejected_snippets"] = len(rejected)
-    run.rule = ("rejected snippets (harvested invalid test inputs + seeds) x 14 layouts (ErrLayout.tla) + single-character edit neighbourhood "
-                "of seed programs, both entry points; evaluated = raised SyntaxError/IndentationError records; distinct = (text, entry)")
-    run.assumptions += ["line length = characters without the line terminator; offset may point one past it"]
 
 
 def replay(rec: dict) -> int:
